@@ -274,6 +274,7 @@ def scn_refused(ctx):
     k = ctx.choice(p.get("calls", 3), "refuse-call")  # which call of delegate.submit is refused
     cnt = [0]
     refusals = []
+    refusing = threading.Event()
     orig = me.submit
 
     def submit_hook(fn, *a, **kw):
@@ -282,6 +283,7 @@ def scn_refused(ctx):
         if n == k:
             e = Refused("cannot schedule new futures after shutdown")
             refusals.append(e)
+            refusing.set()
             ev.add("delegate_refuses", call=n)
             raise e
         return orig(fn, *a, **kw)
@@ -314,6 +316,17 @@ def scn_refused(ctx):
 
     w = spawn("worker", worker)
     futs = [ex.submit(lambda i=i: ("v", i)) for i in range(2)]
+    if p.get("cancel"):
+        # a cancel() racing with the refusal: it returns a bool, whatever the moment
+        def canceller():
+            refusing.wait(50)  # (woken at the moment the delegate refuses: the overlap costs one preemption)
+            try:
+                r = futs[0].cancel()
+                ctx.check("cancel-raises-nothing", isinstance(r, bool), "cancel() returned %r" % (r,))
+            except Exception as x:  # noqa
+                ctx.check("cancel-raises-nothing", False, "cancel() racing with the delegate's refusal raised %r" % (x,))
+        cn = spawn("canceller", canceller)
+        cn.join(BIG)
     for f in futs:
         wait_done(f, sched.now() + 50)
     outs = [outcome(f) for f in futs]
@@ -365,4 +378,5 @@ def plan(tier, seed):
     for ly in ("retry", "throttle", "both"):
         # delegate.submit() raising inside the layer's own worker thread
         items.append(dict(scenario="refused", params=dict(layer=ly, calls=3), bounds=dict(P=0 if q else 1)))
+        items.append(dict(scenario="refused", params=dict(layer=ly, calls=2, cancel=True), bounds=dict(P=1 if q else 2, post_release=True)))
     return items
